@@ -283,7 +283,9 @@ class C13(PathsBase):
             if got != exp:
                 miss = [p for k in exp for p in exp[k] if p not in got.get(k, [])][:3]
                 extra = [p for k in got for p in got[k] if p not in exp.get(k, [])][:3]
-                fails.append(F("C13.paths", query=[u, v, s, e], missing=miss, unexpected=extra))
+                allm = [p for k in exp for p in exp[k] if p not in got.get(k, [])]
+                fails.append(F("C13.paths", query=[u, v, s, e], missing=miss, unexpected=extra,
+                               all_missing_start_with_root_loop=bool(allm) and all(p[0][0] == p[0][1] for p in allm)))
         a, b, m = case["all"]
         if window_valid(ids, a, b) and ids:
             if oracles.is_err(allp):
@@ -300,7 +302,9 @@ class C13(PathsBase):
                 if got != exp:
                     miss = [p for k in exp for p in exp[k] if p not in got.get(k, [])][:3]
                     extra = [p for k in got for p in got[k] if p not in exp.get(k, [])][:3]
-                    fails.append(F("C13.all_paths", query=[a, b, m], missing=miss, unexpected=extra))
+                    allm = [p for k in exp for p in exp[k] if p not in got.get(k, [])]
+                    fails.append(F("C13.all_paths", query=[a, b, m], missing=miss, unexpected=extra,
+                                   all_missing_start_with_root_loop=bool(allm) and all(p[0][0] == p[0][1] for p in allm)))
         return fails
 
 
